@@ -1163,6 +1163,34 @@ func generateScenarios(prop string, seed uint64, n int, adv bool) []*scenario {
 			out = append(out, sc)
 		case prop == "C01":
 			out = append(out, g.converge(i, s))
+		case prop == "C03" && i%12 == 5:
+			// one controller instance over the whole history; the parent is deleted and re-created under
+			// the same name (new UID, generation 1 again) while its children are left behind as orphans
+			sc := g.basic("reincarnation", i, s)
+			sc.Warmup, sc.Setup, sc.LongLived = true, nil, true
+			sc.Ctl.GenSelector = r.Chance(3, 4)
+			p := sc.parentRef()
+			p.Op = "recreate"
+			pre := []extOp{p}
+			pns, _ := sc.Parent["metadata"].(J)["namespace"].(string)
+			for _, c := range sc.Hook.Children {
+				md := c["metadata"].(J)
+				ns, _ := md["namespace"].(string)
+				k := resByKind(c["apiVersion"].(string), c["kind"].(string))
+				if ns == "" && k.Namespaced {
+					ns = pns
+				}
+				if !k.Namespaced {
+					ns = ""
+				}
+				pre = append(pre, extOp{Op: "orphan", APIVersion: c["apiVersion"].(string), Kind: c["kind"].(string), Namespace: ns, Name: md["name"].(string)})
+			}
+			sc.Rounds = []roundSpec{{}, {PreOps: pre}, {}}
+			sc.Features = []string{"long-lived-controller", "parent-recreated-same-name", "children-orphaned"}
+			if sc.Ctl.GenSelector {
+				sc.Features = append(sc.Features, "generate-selector")
+			}
+			out = append(out, sc)
 		case prop == "C03" && i%3 == 1:
 			out = append(out, g.lifecycle(i, s))
 		case prop == "C03" && i%3 == 2:
@@ -1311,6 +1339,17 @@ func generateScenarios(prop string, seed uint64, n int, adv bool) []*scenario {
 			out = append(out, g.malformed(i, s))
 		default:
 			out = append(out, g.basic("basic", i, s))
+		}
+	}
+	// a share of every family runs on one long-lived controller instance (informers fed by watch events)
+	// instead of a fresh one per recorded sync: state kept inside the instance is then in play
+	for i, sc := range out {
+		switch prop {
+		case "C02", "C03", "C04", "C06", "C10", "C11", "C12", "C17":
+			if i%5 == 3 && !sc.LongLived {
+				sc.LongLived = true
+				sc.Features = append(sc.Features, "long-lived-controller")
+			}
 		}
 	}
 	return out
